@@ -93,8 +93,12 @@ E7 = E('E7', 'none', [('A', 'tuple', [('0', U(E1))]), ('B', 'tuple', [('0', Opt(
 E8 = E('E8', 'none', [('L', 'tuple', [('0', Pm('A'))]), ('R', 'tuple', [('0', Pm('B'))])], tparams=[TP('A'), TP('B')])
 E9 = E('E9', 'deep', [('A', 'unit', []), ('B', 'unit', [])], cparams=[CP('K', 'u8')])
 
+Z21 = S('Z21', 'zero', [('a', u32)], reprs=['C', 'align(64)'])
+Z22 = S('Z22', 'zero', [('r', Rg('RangeTo', U(Z12))), ('k', u8)], reprs=['C'])
+PRE = S('Pre', 'none', [('pad', STR), ('v', Pm('A'))], tparams=[TP('A')])
+
 DEEP_DEFS = [D1, D2, D3, D4, D5, D6, D7, D8, D9, D10, D11, D12, D13, D14, D15, D16, D17, D18, D19, D20, D21, D22,
-             E1, E2, E3, E4, E5, E6, E7, E8, E9]
+             E1, E2, E3, E4, E5, E6, E7, E8, E9, PRE, Z21, Z22]
 
 DEFS = ZERO_DEFS + DEEP_DEFS
 
@@ -134,6 +138,13 @@ def user_roots():
     r += [Vec(U(D1)), Vec(U(D2, [v8])), Opt(U(D2, [STR])), Bx(U(E2)), Arr(U(D1), 2), Vec(U(E3, [v32])), Vec(U(E1)),
           Bd(U(D2, [v32])), Fl(U(E1), U(D2, [STR])), Opt(U(E3, [Vec(z1)])), Vec(Vec(U(D10))), Arr(U(E6), 3),
           Vec(Opt(U(D2, [Vec(u16)]))), Bx(U(D3, [STR, v8]))]
+    # residue sweep for C07: a run-time sized prefix before a block of every unit
+    for t in [Vec(u16), Vec(u32), Vec(u64), Vec(u128), z1, z2, U(Z7), U(Z11), Tup(u16, 2), Arr(u64, 2), Vec(z3), Bx(u32), U(Z17),
+              Vec(U(Z7)), U(Z13), Vec(U(ZE3)), Opt(Vec(u64)), U(D9), U(Z21), Vec(U(Z21))]:
+        r.append(U(PRE, [t]))
+    r += [U(Z21), Vec(U(Z21)), Opt(U(Z21)), Arr(U(Z21), 2)]
+    # alignment units that are not a power of two (size_of of a range of a 12-byte type)
+    r += [Vec(Rg('RangeTo', U(Z12))), U(Z22), Vec(U(Z22)), Arr(Rg('RangeToInclusive', U(Z12)), 2)]
     return r
 
 
